@@ -5,7 +5,7 @@
 //!
 //! Scenario (JSON): {"name":..,"workers":1..2,"shutdown_s":1..2,"conns":N,"stop":"graceful"|"forced",
 //!   "release":[{"c":0,"at":"before_stop"|"never"|<ms after stop>}], "second_stop":bool, "drop_future":bool,
-//!   "pause_first":bool, "late_connect":bool, "race_conns":N, "stop_after_done":bool, "faults_first":N, "stop_gap_ms":N, "busy_ms":N}
+//!   "pause_first":bool, "late_connect":bool, "race_conns":N, "stop_after_done":bool, "faults_first":N, "stall_after_stop_ms":N, "stop_gap_ms":N, "busy_ms":N}
 //! accept_delay_ms (solo scenarios only): while set, the accept thread is held that long whenever it logs "resume accepting
 //!   connections" (tracing subscriber); resume_then_stop: resume() and stop() are issued back to back
 //! busy_ms: every connection handler blocks its worker thread for N ms right after it started (no yield)
@@ -148,6 +148,9 @@ pub fn run_scenario(sc: &Value) -> Vec<Value> {
     let busy_ms = sc["busy_ms"].as_u64().unwrap_or(0);
     let poison = Arc::new(AtomicBool::new(false));
     let poison2 = poison.clone();
+    let stall_ms = sc["stall_after_stop_ms"].as_u64().unwrap_or(0);
+    let stop_flag = Arc::new(AtomicBool::new(false));
+    let stop_flag2 = stop_flag.clone();
     let srv_thread = thread::spawn(move || {
         // the Server future (and with it handle_cmd) is polled on this thread
         actix_server::verif::set_stop_gap_ms(stop_gap);
@@ -170,10 +173,12 @@ pub fn run_scenario(sc: &Value) -> Vec<Value> {
                     let l3 = l2.clone();
                     let rel = rel.clone();
                     let poison = poison2.clone();
+                    let stop_flag = stop_flag2.clone();
                     l3.emit(json!({"e": "FactoryNew"}));
                     fn_service(move |mut stream: TcpStream| {
                         let l4 = l3.clone();
                         let rel = rel.clone();
+                        let stop_flag = stop_flag.clone();
                         if poison.swap(false, Ordering::SeqCst) {
                             // panics inside `Service::call`: the worker future (and its thread) dies
                             l4.emit(json!({"e": "Poisoned"}));
@@ -196,7 +201,19 @@ pub fn run_scenario(sc: &Value) -> Vec<Value> {
                             }
                             // dropped before the service future completed = the connection was torn down
                             let mut note = KillNote { log: l4.clone(), c, finished: false };
+                            let mut stalled = false;
+                            let mut since_stop: Option<Instant> = None;
                             while !rel.get(c).map(|f| f.load(Ordering::SeqCst)).unwrap_or(true) {
+                                if stall_ms > 0 && stop_flag.load(Ordering::SeqCst) && since_stop.is_none() {
+                                    since_stop = Some(Instant::now());
+                                }
+                                // (300 ms after the stop: the worker has received it and armed its shutdown timer)
+                                if stall_ms > 0 && !stalled && since_stop.map(|t| t.elapsed() >= Duration::from_millis(300)).unwrap_or(false) {
+                                    // the worker THREAD is held across one or more shutdown ticks (a handler that blocks, a
+                                    // suspended process): afterwards the graceful stop must go on as if nothing had happened
+                                    stalled = true;
+                                    thread::sleep(Duration::from_millis(stall_ms));
+                                }
                                 tokio::time::sleep(Duration::from_millis(5)).await;
                             }
                             note.finished = true;
@@ -294,6 +311,7 @@ pub fn run_scenario(sc: &Value) -> Vec<Value> {
     let nstops = if sc["second_stop"].as_bool().unwrap_or(false) { 2 } else { 1 };
     for k in 0..nstops {
         let fut = handle.stop(graceful);
+        stop_flag.store(true, Ordering::SeqCst);
         log.emit(json!({"e": "StopCalled", "id": k + 1, "graceful": graceful}));
         if k == 0 && sc["drop_future"].as_bool().unwrap_or(false) {
             drop(fut);
